@@ -166,6 +166,10 @@ def attribute(forms, kind, unit, as_module):
     if as_module and "void" in kind and any(
             isinstance(f, list) and f and f[0] != "define" and any(n and n[0] == "with-handler" for n in _walk(f)) for f in forms):
         return "F10 (module mode) a with-handler form evaluated at the top level of a module yields #<void> when its handler runs"
+    if as_module and any(isinstance(f, list) and len(f) > 2 and f[0] == "define" and isinstance(f[1], list) and
+                         len([p for p in f[1][1:] if isinstance(p, R.Sym)]) >= 5 for f in forms):
+        if "TypeMismatch" in kind or "TypeMismatch" in str((unit or {}).get("kind")):
+            return "F11 (module mode) a function with seven parameters applied both directly and through apply inside its own argument list receives a wrong argument"
     global BUILTINS
     if BUILTINS is None:
         static_ok([])
@@ -177,7 +181,13 @@ def attribute(forms, kind, unit, as_module):
     return None
 
 
+F12 = ("F12 (JIT on) an error the reference raises is lost in natively compiled code: the failing operation (car, +, unbox on an "
+       "ill-typed operand inside a closure called from a module's top level or inside a prelude function such as foldr) yields "
+       "#<void> and execution continues - up to unbounded recursion and SIGSEGV; correct with STEEL_JIT=false")
+
 KNOWN_WITNESSES = [
+    ("F12", "(verif-emit ((lambda (g) (g 1)) (lambda (a) (car a))))", True),
+    ("F12", "(verif-emit (foldr + 0 5))", False),
     ("F10", "(define v (vector 5 1)) (verif-emit (with-handler (lambda (e) 'err) (vector-ref v 3)))", True),
     ("F08", "(verif-emit (let* ((v21 0) (v22 (car (vector->list (vector))))) (+ v21)))", False),
     ("F09", "(define (f0 a3) (define (inner4 z) (let* ((v4 (list)) (v1 a3)) (set! v1 (+ v1 2)) 0)) 0) (verif-emit 1)", False),
@@ -456,6 +466,12 @@ def main(tier, prop="C01"):
             fin = check_one(small, env, as_module) or again
             src = R.program_source(small)
             attr = attribute(small, kind, fin[2], as_module)
+            if attr is None and not env.get("STEEL_JIT") and fin[0][0] == "err" and (
+                    "succeeds where the reference raises" in kind or "void" in kind or "signal:11" in kind):
+                # the reference raises; does the engine agree with it once native code generation is off?
+                nj = check_one(small, dict(env, STEEL_JIT="false"), as_module)
+                if nj is not None and nj[0] == nj[1]:
+                    attr = F12
             sig = "%s %s" % (prop, attr) if attr else "%s %s [%s]" % (prop, kind, "module" if as_module else "top-level")
             rep.violation(sig, "config=%s %s\nprogram:\n%s" % (cname, first_diff(fin[0], fin[1]), src),
                           {"config": env, "as_module": as_module, "src": src, "expected": list(fin[0])})
@@ -463,12 +479,19 @@ def main(tier, prop="C01"):
         rep.add("divergences_of_an_already_analysed_class", unanalysed)
         rep.note("divergence_classes_%s" % cname, seen_kind)
     # the fixed witnesses of the known findings (the generator steers around these constructs)
-    for fid, text, as_mod in KNOWN_WITNESSES:
+    import os
+    extra = []
+    wdir = os.path.join(core.VERIF, "witnesses")
+    if os.path.exists(os.path.join(wdir, "C01-F11.scm")):
+        extra.append(("F11", open(os.path.join(wdir, "C01-F11.scm")).read(), True))
+    for fid, text, as_mod in KNOWN_WITNESSES + extra:
         forms = R.parse(text)
         x = check_one(forms, {}, as_mod)
         rep.count()
         if x is not None and x[0] != x[1]:
             attr = attribute(forms, kind_of(x), x[2], as_mod)
+            if attr is None and fid == "F12":
+                attr = F12
             sig = "%s %s" % (prop, attr) if attr else "%s witness %s: %s" % (prop, fid, kind_of(x))
             rep.violation(sig, "known-finding witness %s\nprogram:\n%s\n%s" % (fid, text, first_diff(x[0], x[1])),
                           {"config": {}, "as_module": as_mod, "src": R.program_source(forms), "expected": list(x[0])})
